@@ -97,3 +97,23 @@ Proof. split; vm_compute; reflexivity. Qed.
 
 Lemma unsize_expr_in_unsafe_fails : metavar_harmless (("unsize#0", "gc"), "expr") = false.
 Proof. vm_compute. reflexivity. Qed.
+
+(** *** unsize! coerces raw pointers *)
+Lemma coerce_fns_check :
+  forallb coerce_fn_ok (coerce_fns pub_fns) = true
+  /\ map fs_owner (coerce_fns pub_fns) = ["__CoercePtrInternal"; "Gc"; "GcWeak"].
+Proof. split; vm_compute; reflexivity. Qed.
+
+Lemma coerce_fns_lifted : forall f, In f pub_fns -> fs_name f = "__coerce_unchecked" -> coerce_fn_ok f = true.
+Proof.
+  intros f Hin Hn. apply (proj1 (forallb_forall _ _) (proj1 coerce_fns_check)).
+  unfold coerce_fns. apply filter_In. split; [exact Hin|]. rewrite Hn. reflexivity.
+Qed.
+
+Lemma unsize_macro_check : unsize_macro_ok unsize_macro_rules unsize_macro_matcher unsize_macro_text = true.
+Proof. vm_compute. reflexivity. Qed.
+
+(** a closure bound over references is rejected *)
+Lemma ref_closure_rejected :
+  raw_ptr_closure (BFn [] "FnOnce" [TRef LElided false (TParam "T")] (TRef LElided false (TParam "U"))) = false.
+Proof. vm_compute. reflexivity. Qed.
